@@ -1002,8 +1002,7 @@ class BaseWorkflow(object, metaclass=abc.ABCMeta):
                 List of absence step time in simulation.
         """
         for t in self.task_list:
-            if not isinstance(t, BaseSubProjectTask):
-                t.remove_absence_time_list(absence_time_list)
+            t.remove_absence_time_list(absence_time_list)
 
     def insert_absence_time_list(self, absence_time_list):
         """
@@ -1014,8 +1013,7 @@ class BaseWorkflow(object, metaclass=abc.ABCMeta):
                 List of absence step time in simulation.
         """
         for t in self.task_list:
-            if not isinstance(t, BaseSubProjectTask):
-                t.insert_absence_time_list(absence_time_list)
+            t.insert_absence_time_list(absence_time_list)
 
     def print_log(self, target_step_time):
         """
